@@ -873,7 +873,7 @@ def ring_tokens(spec, tab):
     return [str(v) for v in spec["nghost"]] + [d2h(v) for g in tab for v in g]
 
 
-def f_line(spec, mode, state, tab, tree, res, dtl, t, ninner, given=(), nvar=0, nactive=None):
+def f_line(spec, mode, state, tab, tree, res, dtl, t, ninner, given=(), nvar=0, nactive=None, eo0=0.0):
     hyb = 1 if spec["integrator"] in ("mercurius", "trace") else 0
     if nactive is None:
         nactive = -1 if spec.get("n_active") is None else spec["n_active"]
@@ -885,7 +885,7 @@ def f_line(spec, mode, state, tab, tree, res, dtl, t, ninner, given=(), nvar=0, 
     elif res[0] == "hs":
         toks += ["hs", d2h(res[1] if res[1] is not None else 1.0), d2h(spec.get("mcv", 0.0)), RESFLAGS["hs"]]
     elif res[0] == "merge":
-        toks += ["merge", RESFLAGS["merge"], "1" if spec.get("teo") else "0", d2h(spec.get("G", 1.0))]
+        toks += ["merge", RESFLAGS["merge"], "1" if spec.get("teo") else "0", d2h(spec.get("G", 1.0)), d2h(eo0)]
     else:
         toks += [res[0]]
     toks += [str(ninner)] + ring_tokens(spec, tab)
@@ -1284,7 +1284,8 @@ def scenario(c, W, exe_lines, spec, tag, stats):
         except ValueError:
             c.corr_break("pending entry with a ghost box outside the ring (%s)" % tag, dict(spec=spec))
             return None
-        return f_line(spec, "ordered", stateA, tab, B["tree"], res, A["dtl"], A["t"], ninner, given, nvar=nvar, nactive=A["N_active"])
+        return f_line(spec, "ordered", stateA, tab, B["tree"], res, A["dtl"], A["t"], ninner, given, nvar=nvar, nactive=A["N_active"],
+                      eo0=(B["eorec"][0][5] if B["eorec"] else B["eo"]))   # energy_offset when the search starts (the open-boundary check books its own removals)
 
     def chk2(outline):
         m = parse_f(outline)
@@ -1536,7 +1537,8 @@ def check_hs(c, spec, B, res, stats):
             d2 = math.fsum(x * x for x in dd)
             sr = a0[7] + b0[7]
             dot = math.fsum(dd[k] * vv[k] for k in range(3))
-            sc2 = math.sqrt(d2 * math.fsum(x * x for x in vv)) + 1e-300
+            vab = max(abs(v) for v in a0[3:6] + b0[3:6] + tuple(g[3:6]))
+            sc2 = math.sqrt(d2 * math.fsum(x * x for x in vv)) + 1e-300 + 1e-4 * math.sqrt(d2) * vab     # + rounding of the individual velocities
             if d2 < sr * sr * (1 - 1e-9) and dot < -1e-9 * sc2 and all(v == v for v in a0[:6] + b0[:6]) and a0[6] + b0[6] != 0.0:
                 c.violation("hardsphere-no-bounce", "overlapping pair approaching in the frame of the ghost image (d.v = %.3g, ghost velocity %r) is left untouched by the resolver" % (dot, list(g[3:6])),
                             dict(spec=spec, rec=rec))
